@@ -85,6 +85,28 @@ def run_steps(universe, states, rng, n_ops, prefix, ops):
     return traces
 
 
+def random_state(universe, rng):
+    """A random well-formed abstract state without sharing: every kind / phase set / flow distribution."""
+    nc = universe['nc']
+    st, sv = {}, {}
+    for n in universe['names']:
+        pkg = universe['pkg'][n]
+        chems = [c for c in universe['pkgs'][pkg] if c <= nc]
+        multi = rng.random() < 0.55
+        if multi:
+            phs = sorted(rng.sample(ds.ALLPH, rng.randint(1, 4)))
+        else:
+            phs = [rng.choice(ds.ALLPH)]
+        fl = {}
+        for p in phs:
+            empty = rng.random() < 0.35
+            fl[p] = [0 if (empty or c not in chems or rng.random() < 0.4) else 4 * rng.randint(1, 6) for c in range(1, nc + 1)]
+        st[n] = dict(k='m' if multi else 's', ph=phs, fl=fl, T=rng.choice([300, 320, 350]), P=rng.choice([100, 200, 50]),
+                     pkg=pkg, price=0, cf=0, fr=n, tr=n, pr=n)
+        sv[n] = ds.NOSNAP
+    return dict(st=st, sv=sv)
+
+
 def run_paths(universe, paths, prefix):
     traces = []
     for k, path in enumerate(paths):
@@ -129,7 +151,7 @@ def judge(ctx, uname, traces, verdicts, stats, focus):
                           dict(kind='step', universe=uname, init=pre, steps=[dict(op=s['op'], a=s['a'])], clause=clause))
 
 
-def run(ctx, prop, mc, focus, shaping, sim_len=30):
+def run(ctx, prop, mc, focus, shaping, sim_len=30, extra_paths=None):
     """mc: dict(names=..., ops=..., phasesets=..., depth=..., props=[...]); focus: operations this property owns;
     shaping: additional operations used to reach interesting states (violations on them are left to their owner)."""
     rng = random.Random(ctx.seed)
@@ -158,6 +180,12 @@ def run(ctx, prop, mc, focus, shaping, sim_len=30):
     groups.append((uname, run_paths(uni, wsample, 'W')))
     ssample = dstates if not quick and len(dstates) < 4000 else rng.sample(dstates, min(150 if quick else 4000, len(dstates)))
     groups.append((uname, run_steps(uni, ssample, rng, 12 if quick else 30, 'S', list(focus) * 3 + list(shaping))))
+    for un in ('big', 'mc3'):
+        u = ds.UNIVERSES[un]
+        rstates = [random_state(u, rng) for _ in range(120 if quick else 3000)]
+        groups.append((un, run_steps(u, rstates, rng, 10 if quick else 25, 'T' + un[0], list(focus))))
+    if extra_paths:
+        groups.append(('mc3', run_paths(ds.UNIVERSES['mc3'], extra_paths(rng, 150 if quick else 4000), 'D')))
     groups.append(('big', run_random(ds.UNIVERSES['big'], rng, 60 if quick else 1500, sim_len, 'R', ops_all)))
     groups.append(('mc3', run_random(ds.UNIVERSES['mc3'], rng, 40 if quick else 1000, sim_len, 'Q', ops_all)))
     n_tr = 0
